@@ -164,6 +164,20 @@ pub fn sched(a: &[u128]) -> Vec<u128> {
     }
     let root = refenc::root(&data);
     let ranges = mk_ranges(&q);
+    if driver == 2 {
+        // sync::decode_ranges over the scheduled transport, with 300 further bytes behind the response:
+        //  -> [outcome, payload, calls_after_failure, bytes left on the transport, target digest]
+        stream.extend_from_slice(&gen_data(0, (a[1] as u64).wrapping_add(1), 300));
+        let mut rd = SchedReader::new(stream, evs, fail);
+        let mut target = vec![0u8; data.len()];
+        let mut ob = bao_tree::io::outboard::PreOrderMemOutboard { root, tree: t, data: vec![0u8; t.outboard_size() as usize] };
+        let r = sync::decode_ranges(&mut rd, &ranges, &mut target, &mut ob);
+        let oc = match &r {
+            Ok(()) => (0, 0),
+            Err(e) => dec_rc(e),
+        };
+        return vec![oc.0, oc.1, rd.after_fail_calls as u128, (rd.data.len() - rd.pos) as u128, digest(&target) as u128];
+    }
     let mut items = Vec::new();
     let mut n = 0u128;
     let mut outcome = (0u128, 0u128);
